@@ -11,6 +11,7 @@ def run(ctx, args):
     ctx.model_check("MC_Pool", "MC_PoolSeq.cfg", coverage=not q)
     ctx.model_check("MC_Pool", "MC_PoolConc.cfg")
     ctx.model_check("MC_Pool", "MC_PoolLive.cfg")          # liveness under weak fairness: every started dispatch completes (no state constraint)
+    ctx.prove("PoolProofs")                                # unbounded (TLAPS): the cursor stays in range, a dispatch over a non-empty list reaches a member
     ctx.model_check("MC_Pool", "MC_PoolReach1.cfg", expect_violation="Reach_RaceEmpty")
     ctx.model_check("MC_Pool", "MC_PoolReach2.cfg", expect_violation="Reach_StaleIdx")
     # Leg R: every add/remove/dispatch sequence up to the bound, emitted by TLC
